@@ -3,6 +3,7 @@ package main
 import (
 	"encoding/json"
 	"fmt"
+	"io"
 	"os"
 	"os/exec"
 	"path/filepath"
@@ -21,13 +22,34 @@ func superviseRaces(out string) {
 	logBase := filepath.Join(out, "race")
 	cmd := exec.Command(os.Args[0], os.Args[1:]...)
 	cmd.Env = append(os.Environ(), "C06_CHILD=1", "GORACE=log_path="+logBase+" exitcode=0 halt_on_error=0")
-	cmd.Stdout, cmd.Stderr = os.Stdout, os.Stderr
+	var tail tailBuf
+	cmd.Stdout, cmd.Stderr = os.Stdout, io.MultiWriter(os.Stderr, &tail)
+	os.Remove(filepath.Join(out, "result.json"))
 	err := cmd.Run()
 	rp := filepath.Join(out, "result.json")
 	b, rerr := os.ReadFile(rp)
 	if err != nil || rerr != nil {
-		fmt.Fprintln(os.Stderr, "c06: child failed:", err, rerr)
-		os.Exit(1)
+		// The child died: a panic in a goroutine the library started (nothing
+		// can recover it) or a fatal error of the Go runtime (concurrent map
+		// access, ...). That is an oracle failure of the schedule that was
+		// running, which the child wrote down before it started it.
+		fmt.Fprintln(os.Stderr, "c06: child died:", err, rerr)
+		var cur interface{}
+		if cb, e := os.ReadFile(filepath.Join(out, "current.json")); e == nil {
+			json.Unmarshal(cb, &cur)
+		}
+		res := map[string]interface{}{
+			"property": "C06", "evaluations": 0, "distinct_nontrivial": 0, "rule": "the harness process died", "samples": []interface{}{},
+			"histogram": map[string]int{}, "case_files": []string{},
+			"oracle_failures": []interface{}{map[string]interface{}{
+				"key":  "C06/process/crash",
+				"what": "the process died while this schedule was running (unrecoverable panic in a goroutine started by the library, or a Go runtime fatal error): " + tail.String(),
+				"case": cur,
+			}},
+		}
+		nb, _ := json.MarshalIndent(res, "", " ")
+		os.WriteFile(rp, nb, 0o644)
+		os.Exit(0)
 	}
 	logs, _ := filepath.Glob(logBase + ".*")
 	if len(logs) == 0 {
@@ -67,4 +89,31 @@ func superviseRaces(out string) {
 	nb, _ := json.MarshalIndent(res, "", " ")
 	os.WriteFile(rp, nb, 0o644)
 	os.Exit(0)
+}
+
+// tailBuf keeps the first 1500 bytes written to it (the head of a panic message names the cause).
+type tailBuf struct{ b []byte }
+
+func (t *tailBuf) Write(p []byte) (int, error) {
+	if room := 1500 - len(t.b); room > 0 {
+		if len(p) < room {
+			room = len(p)
+		}
+		t.b = append(t.b, p[:room]...)
+	}
+	return len(p), nil
+}
+
+func (t *tailBuf) String() string { return string(t.b) }
+
+var currentPath string
+
+// setCurrent writes down the schedule that is about to run (see superviseRaces).
+func setCurrent(v interface{}) {
+	if currentPath == "" {
+		return
+	}
+	if b, err := json.Marshal(v); err == nil {
+		os.WriteFile(currentPath, b, 0o644)
+	}
 }
